@@ -201,12 +201,14 @@ def vectors(ctx):
         refs = [([2 * gsraw, 1], [trk_num, 512]), ([round(661.48 * m / 250), 1], [hdg_num, 512]),
                 ([rng.randrange(100, 500), 1], [rng.randrange(0, 360 * 512), 512])]
         for spd, trk in refs:
-            V.append({"fn": "bds.is50or60", "frame": f, "spd": spd, "trk": trk, "case": ["5060", k, spd[0], trk[0]]})
+            V.append({"fn": "bds.is50or60", "frame": f, "spd": spd, "trk": trk, "alt": 0, "case": ["5060", k, spd[0], trk[0]]})
+        alt = rng.choice([5000, 10000, 25000, 35000, 41000])
+        V.append({"fn": "bds.is50or60", "frame": f, "spd": refs[0][0], "trk": refs[0][1], "alt": alt, "case": ["5060alt", k, alt]})
         if k % 10 == 0:
             add_all(f, ["5060", k], isfns=False)
     for k in range(ctx.pick(200, 4000)):
         f = gen.rand_frame_df(rng, rng.choice([20, 21]))
-        V.append({"fn": "bds.is50or60", "frame": f, "spd": [300, 1], "trk": [90 * 512, 512], "case": ["5060r", k]})
+        V.append({"fn": "bds.is50or60", "frame": f, "spd": [300, 1], "trk": [90 * 512, 512], "alt": rng.choice([0, 0, 20000]), "case": ["5060r", k]})
     # (6) recorded traffic and random payloads (dense and sparse)
     for kind in ("df20", "df21", "adsb"):
         for ts, msg, ic in gen.sample_frames(kind)[:ctx.pick(700, 100000)]:
